@@ -267,6 +267,41 @@ fn parsing(run: &Arc<Run>, thorough: bool, window: usize) {
                 }
             }
         }
+        // the same datagram with each integer field written in a non-canonical way: overlong
+        // forms, five bytes with padding bits set, the sign bit with all digits zero
+        {
+            const ODD: [&[u8]; 10] = [b"\x80\x00", b"\xc0\x00", b"\x80\x80\x80\x80\x00", b"\xc0\x80\x80\x80\x10", b"\x80\x80\x80\x80\x10", b"\xc0\x80\x80\x80\xf0", b"\xff\xff\xff\xff\xff", b"\xff\xff\xff\xff\x1f", b"\xbf\xff\xff\xff\x7f", b"\xc0\x80\x80\x80\x70"];
+            for which in 0..8 {
+                for odd in ODD {
+                    let mut d = head.to_vec();
+                    let put = |k: usize, v: i32, d: &mut Vec<u8>| {
+                        if k == which {
+                            d.extend_from_slice(odd)
+                        } else {
+                            enc(v, d)
+                        }
+                    };
+                    put(0, 5, &mut d);
+                    s(&mut d, "0.7.5");
+                    s(&mut d, "name");
+                    s(&mut d, "host");
+                    s(&mut d, "dm1");
+                    s(&mut d, "DM");
+                    put(1, 0, &mut d);
+                    put(2, 2, &mut d);
+                    put(3, 1, &mut d);
+                    put(4, 16, &mut d);
+                    put(5, 1, &mut d);
+                    put(6, 16, &mut d);
+                    s(&mut d, &client(0).name);
+                    s(&mut d, "clan");
+                    put(7, -1, &mut d);
+                    enc(3, &mut d);
+                    enc(0, &mut d);
+                    inputs.push(("inf3-7:non-canonical-int".into(), d));
+                }
+            }
+        }
         for (name, hdr) in [("list5", &b"\xff\xff\xff\xff\xff\xff\xff\xff\xff\xfflist"[..]), ("list6", b"\xff\xff\xff\xff\xff\xff\xff\xff\xff\xfflis2"), ("count", b"\xff\xff\xff\xff\xff\xff\xff\xff\xff\xffsiz2"), ("list7", b"\x21\x01\x02\x03\x04\x05\x06\x07\x08\xff\xff\xff\xfflis2"), ("count7", b"\x21\x01\x02\x03\x04\x05\x06\x07\x08\xff\xff\xff\xffsiz2"), ("token7", b"\x04\0\0\x01\x02\x03\x04\x05")] {
             for n in 0..=40usize {
                 for fill in [0x00u8, 0xff, 0x5a] {
@@ -509,7 +544,7 @@ fn main() {
     merging(&run, true);
     run.assume("parts come from a consistent server: the 64-player legacy info in packets of 24 clients with offsets, the extended info as one main packet plus non-empty 'more' packets numbered from 1 (doc/serverinfo_extended.md)");
     run.finish(
-        "parsing: a well-formed datagram of each of the thirteen response kinds with every numeric field set to each of 25 boundary/garbage values and pairs of fields up to 3 apart (thorough: all pairs of fields), every truncation, client counts around 16/24/64, offsets and packet numbers around 64, all first bytes; merging: servers with N in {0,1,2,23,24,25,47,48,49,64} clients split into legacy-64 and extended parts, for <= 4 parts all sequences of length <= parts+2 (every permutation with every duplication), for up to 64 parts listed permutation families with duplications; oracle: complete exactly when every part was seen, then every client exactly once",
+        "parsing: a well-formed datagram of each of the thirteen response kinds with every numeric field set to each of 25 boundary/garbage values and pairs of fields up to 3 apart (thorough: all pairs of fields), every truncation, every integer of the 0.7 info in ten non-canonical encodings, client counts around 16/24/64, offsets and packet numbers around 64, all first bytes; merging: servers with N in {0,1,2,23,24,25,47,48,49,64} clients split into legacy-64 and extended parts, for <= 4 parts all sequences of length <= parts+2 (every permutation with every duplication), for up to 64 parts listed permutation families with duplications; oracle: complete exactly when every part was seen, then every client exactly once",
         true,
     );
 }
